@@ -238,7 +238,7 @@ func c35Size(r *verifx.Rng, max int) int {
 }
 
 func runC35(args []string) {
-	f := verifx.ParseFlags("c35", args, 420, 4000)
+	f := verifx.ParseFlags("c35", args, 420, 3000)
 	out := verifx.NewOut()
 	thorough := f.Tier == "thorough"
 	k := 0
